@@ -26,6 +26,9 @@ from pyvc.lib.c10_models import CT, AT, AList, rterm, ip
 from .common import registry, forall, implies, AND, OR, NOT
 
 LEVEL = "proof"
+# the runner stores a printed sample of every goal; z3's Python pretty-printer is slow on the large real-arithmetic terms of this
+# property, so printing (only printing - terms, SMT-LIB text and hashes are unaffected) is abbreviated
+z3.set_option(max_depth=7, max_args=10, max_lines=14, max_width=160)
 OM = "quantem.diffractive_imaging.object_models"
 PM = "quantem.diffractive_imaging.probe_models"
 TM = "quantem.tomography.object_models"
@@ -72,6 +75,7 @@ def make_registry():
 
 def pick(ctx, name, options):
     """fork over concrete alternatives"""
+    options = list(options)
     for o in options[:-1]:
         if ctx.branch(ctx.fresh(f"{name}_is_{o}", "bool").t):
             return o
@@ -97,17 +101,17 @@ def sq(t):
 DEFAULT_OBJ_CONSTRAINTS = dict(OP.DEFAULT_CONSTRAINTS)
 
 
-def ahc_setup(ctx):
+def ahc_setup(ctx, types=("complex", "pure_phase", "potential"), pos_options=(True, False)):
     import torch
 
-    typ = pick(ctx, "typ", ["complex", "pure_phase", "potential"])
+    typ = pick(ctx, "typ", list(types))
     has_mask = flag(ctx, "mask_given")
     fov = flag(ctx, "apply_fov_mask")
     tie = flag(ctx, "identical_slices")
     pos = fix = False
     factor = 1.0
     if typ == "potential":
-        pos = flag(ctx, "positivity")
+        pos = pick(ctx, "positivity", list(pos_options))
         fix = flag(ctx, "fix_potential_baseline")
         if fix:
             factor = ctx.fresh("baseline_factor", "real")
@@ -164,7 +168,13 @@ def ahc_requires(s):
     s = ahc_bind_flags(s)
     out = []
     if s.mask is not None:
-        out.append(("fov-mask-in-[0,1]", mask_range(s.mask, s.dims)))
+        if getattr(s, "mode", "verify") == "verify" and hasattr(s, "px"):
+            # the body is verified at the generic pixels only: the (weaker, quantifier-free) instance of the precondition suffices
+            s0, i0, j0, s1 = [lift(x) for x in s.px]
+            vals = [rr(s.mask.fn(s0, i0, j0)), rr(s.mask.fn(s1, i0, j0))]
+            out.append(("fov-mask-in-[0,1]", AND(*[AND(v >= 0, v <= 1) for v in vals])))
+        else:
+            out.append(("fov-mask-in-[0,1]", mask_range(s.mask, s.dims)))
         out.append(("mask-shape", AND(*[lift(x) == lift(y) for x, y in zip(s.mask.shape, s.dims)])))
     out.append(("no-smoothing-filters", s.cons.get("gaussian_sigma") is None and not s.cons["q_lowpass"] and not s.cons["q_highpass"]))
     out.append(("obj-has-num_slices-slices", lift(s.obj.shape[0]) == lift(s.self.fields["_obj"].shape[0])))
@@ -222,8 +232,8 @@ def type_claims(s, X, p, masked, tag):
             out.append((f"pure_phase:amplitude=1[{mtag}]", a2 == 1))
             out.append((f"pure_phase:amplitude=1-where-mask=1[{mtag}]{tag}", implies(rr(s.mask.fn(*p)) == 1, a2 == 1)))
             out.append((f"pure_phase:amplitude<=1[{mtag}]{tag}", a2 <= 1))
-        out.append((f"whole-view:amplitude=A*M[{mtag}]{tag}", a2 == sq(A * M)))
-        out.append((f"whole-view:phase=theta-mean(theta)[{mtag}]{tag}",
+        out.append((f"{s.typ}:whole-view:amplitude=A*M[{mtag}]{tag}", a2 == sq(A * M)))
+        out.append((f"{s.typ}:whole-view:phase=theta-mean(theta)[{mtag}]{tag}",
                     AND(xr == A * M * reals.F["cos"](ph), xi == A * M * reals.F["sin"](ph))))
     else:
         x = rr(X.fn(*p))
@@ -234,7 +244,7 @@ def type_claims(s, X, p, masked, tag):
             e = z3.If(v < 0, z3.RealVal(0), v) if s.pos else v
             if masked:
                 e = e * rr(s.mask.fn(*p))
-            out.append((f"whole-view:value{tag}", x == e))
+            out.append((f"potential:whole-view:value{tag}", x == e))
     return out
 
 
@@ -258,7 +268,7 @@ def ahc_ensures(s):
         wrap2 = lambda t: forall([s0, i0, j0, s1], implies(rng, t))
         rng0 = AND(s0 >= 0, s0 < Sn, i0 >= 0, i0 < lift(s.dims[1]), j0 >= 0, j0 < lift(s.dims[2]))
         wrap = lambda t: forall([s0, i0, j0], implies(rng0, t))
-    out.append(("result-shape", AND(*[lift(x) == lift(y) for x, y in zip(res.shape, s.dims)])))
+    out.append((f"{s.typ}:result-shape", AND(*[lift(x) == lift(y) for x, y in zip(res.shape, s.dims)])))
     if not s.tie:
         out += [(l, wrap(t)) for l, t in type_claims(s, res, P0, masked, "")]
     else:
@@ -269,11 +279,11 @@ def ahc_ensures(s):
             same = AND(rr(res.re.fn(*P0)) == rr(res.re.fn(*P1)), rr(res.im.fn(*P0)) == rr(res.im.fn(*P1)))
         else:
             same = rr(res.fn(*P0)) == rr(res.fn(*P1))
-        out.append(("identical_slices:all-slices-equal", wrap2(same)))
+        out.append((f"{s.typ}:identical_slices:all-slices-equal", wrap2(same)))
         if s.mode == "verify":
             src = s.ctx.ghost.get("c10_mean_src")
             if src is None:
-                out.append(("identical_slices:result-is-slice-mean(ghost source recorded)", implies(Sn > 1, False)))
+                out.append((f"{s.typ}:identical_slices:result-is-slice-mean(ghost source recorded)", implies(Sn > 1, False)))
             else:
                 out += [(l, implies(Sn > 1, t)) for l, t in type_claims(s, src, P1, masked, "[tie,S>1,untied-source]")]
                 mean = src.mean(dim=0, keepdim=True)
@@ -282,16 +292,16 @@ def ahc_ensures(s):
                     eq = AND(rr(res.re.fn(*P0)) == rr(mean.re.fn(*Pm)), rr(res.im.fn(*P0)) == rr(mean.im.fn(*Pm)))
                 else:
                     eq = rr(res.fn(*P0)) == rr(mean.fn(*Pm))
-                out.append(("identical_slices:result-is-slice-mean-of-untied-object", implies(Sn > 1, eq)))
+                out.append((f"{s.typ}:identical_slices:result-is-slice-mean-of-untied-object", implies(Sn > 1, eq)))
                 if s.typ == "pure_phase":
                     # literal statement "exactly one" on the tied object (mean of unit phasors): triaged, see report
                     out.append(("pure_phase:amplitude=1[tie,S>1]", implies(Sn > 1, amp_sq(res, P0) == 1)))
     # frame: the raw parameter tensor and the mask are not written
     o = s.obj
     w = (o.writes, o.re.writes, o.im.writes) if isinstance(o, CT) else (o.writes,)
-    out.append(("frame:raw-object-not-written", w == s.old.obj_writes))
+    out.append((f"{s.typ}:frame:raw-object-not-written", w == s.old.obj_writes))
     if s.mask is not None:
-        out.append(("frame:mask-not-written", s.mask.writes == s.old.mask_writes))
+        out.append((f"{s.typ}:frame:mask-not-written", s.mask.writes == s.old.mask_writes))
     return out
 
 
@@ -306,10 +316,18 @@ def ahc_result(ctx, s):
     return r
 
 
-C_AHC = Contract(
-    f"{OM}:ObjectConstraints.apply_hard_constraints", setup=ahc_setup, requires=ahc_requires, ensures=ahc_ensures,
-    snapshot=ahc_snapshot, result=ahc_result, max_paths=4000,
-)
+def _ahc_contract(types, pos_options=(True, False)):
+    return Contract(
+        f"{OM}:ObjectConstraints.apply_hard_constraints", setup=lambda ctx: ahc_setup(ctx, types, pos_options), requires=ahc_requires,
+        ensures=ahc_ensures, snapshot=ahc_snapshot, result=ahc_result, max_paths=4000)
+
+
+# one function, four verification units (configuration families); every label carries its object type
+C_AHC = _ahc_contract(("complex",))
+C_AHC_PURE = _ahc_contract(("pure_phase",))
+C_AHC_POT_POS = _ahc_contract(("potential",), (True,))
+C_AHC_POT_NOPOS = _ahc_contract(("potential",), (False,))
+AHC_ALL = [C_AHC, C_AHC_PURE, C_AHC_POT_POS, C_AHC_POT_NOPOS]
 
 
 # ---- ObjectPixelated.obj : the object handed to the forward model ------------------------------------------------------
@@ -326,12 +344,20 @@ def objprop_ensures(s):
     t.result, t.mode, t.ctx = s.result, "verify", s.ctx
     t.old = ahc_snapshot(t)
     # the claims of the statement on obj_model.obj (frame clauses are the callee's)
-    keep = ("complex:", "pure_phase:amplitude=1[no-mask]", "pure_phase:amplitude<=1", "pure_phase:amplitude=1-where", "potential:", "identical_slices:all-slices-equal")
-    return [(l, g) for l, g in ahc_ensures(t) if l.startswith(keep) and "untied-source" not in l]
+    keep = ("complex:amplitude", "pure_phase:amplitude=1[no-mask]", "pure_phase:amplitude<=1", "pure_phase:amplitude=1-where", "potential:positivity",
+            "identical_slices:all-slices-equal")
+    return [(l, g) for l, g in ahc_ensures(t) if any(k in l for k in keep) and "untied-source" not in l]
+
+
+def objprop_requires(s):
+    if s.mode != "verify":
+        return []
+    s.inner.mode = "caller"  # the callee's precondition has to be established for every pixel: keep the quantified form
+    return ahc_requires(s.inner)
 
 
 C_OBJPROP = Contract(f"{OM}:ObjectPixelated.obj.fget", setup=objprop_setup,
-                     requires=lambda s: ahc_requires(s.inner) if s.mode == "verify" else [], ensures=objprop_ensures)
+                     requires=lambda s: objprop_requires(s), ensures=objprop_ensures)
 
 
 # ================================================================================================================
@@ -364,19 +390,19 @@ def tom_ensures(s):
     p = [lift(x) for x in s.px]
     x = rr(res.fn(*p))
     v = rr(s.obj.fn(*p))
-    out = [("result-shape", AND(*[lift(a) == lift(b) for a, b in zip(res.shape, s.dims)]))]
+    out = [("tomography:result-shape", AND(*[lift(a) == lift(b) for a, b in zip(res.shape, s.dims)]))]
     if s.pos:
-        out.append(("positivity=>value>=0", x >= 0))
+        out.append(("tomography:positivity=>value>=0", x >= 0))
     e = z3.If(v < 0, z3.RealVal(0), v) if s.pos else v
     if s.shr:
         sh = rr(s.shrink)
         # `if shrinkage:` is a truthiness test: shrinkage == 0.0 switches it off
         e2 = z3.If(e - sh > 0, e - sh, z3.RealVal(0))
-        out.append(("shrinkage!=0=>value>=0", implies(sh != 0, x >= 0)))
+        out.append(("tomography:shrinkage!=0=>value>=0", implies(sh != 0, x >= 0)))
         e = z3.If(sh != 0, e2, e)
-    out.append(("whole-view:value", x == e))
-    out.append(("frame:input-volume-not-written", s.obj.writes == s.old))
-    out.append(("result-is-a-new-tensor", res is not s.obj))
+    out.append(("tomography:whole-view:value", x == e))
+    out.append(("tomography:frame:input-volume-not-written", s.obj.writes == s.old))
+    out.append(("tomography:result-is-a-new-tensor", res is not s.obj))
     return out
 
 
@@ -577,7 +603,7 @@ def ipw_ensures(s):
 C_IPW = Contract(f"{PM}:ProbePixelated.initial_probe_weights.fset", setup=ipw_setup, requires=ipw_requires, ensures=ipw_ensures,
                  raises={ValueError: lambda s: s.wmode == "wrong_len"})
 
-CONTRACTS = [C_AHC, C_OBJPROP, C_TOM, C_GS, C_AW, C_IPW]
+CONTRACTS = AHC_ALL + [C_OBJPROP, C_TOM, C_GS, C_AW, C_IPW]
 
 # ================================================================================================================
 # property-level lemmas (from the contract statements alone)
@@ -792,15 +818,22 @@ def fam_obj_triaged(tier="quick", seed=0):
                     yield dict(typ=typ, S=S_, H=H, W=W, mask=mask, fov=fov, tie=tie, seed=seed + S_ + H, scale=2.0, triaged=True)
 
 
-def ahc_concretize(ev):
-    typ = "complex" if ev("typ_is_complex") else "pure_phase" if ev("typ_is_pure_phase") else "potential"
+def ahc_concretize(ev, types=("complex", "pure_phase", "potential"), pos_options=(True, False)):
+    typ = types[-1]
+    for t in types[:-1]:
+        if ev(f"typ_is_{t}"):
+            typ = t
+            break
     S_ = ev("S", 1) or 1
     return dict(typ=typ, S=int(min(max(S_, 1), 3)), H=2, W=3, mask="fractional" if ev("mask_given") else "none", fov=bool(ev("apply_fov_mask")),
-                tie=bool(ev("identical_slices")), pos=bool(ev("positivity", True)), fix=bool(ev("fix_potential_baseline", False)),
+                tie=bool(ev("identical_slices")), pos=bool(ev("positivity_is_True", pos_options[-1]) if len(pos_options) > 1 else pos_options[0]), fix=bool(ev("fix_potential_baseline", False)),
                 factor=float(ev("baseline_factor", 1.0) or 1.0), seed=1, scale=2.0)
 
 
-C_AHC.rt, C_AHC.rt_family, C_AHC.concretize = rt_obj, fam_obj_quick, ahc_concretize
+for _c, _t, _p in ((C_AHC, ("complex",), (True, False)), (C_AHC_PURE, ("pure_phase",), (True, False)),
+                   (C_AHC_POT_POS, ("potential",), (True,)), (C_AHC_POT_NOPOS, ("potential",), (False,))):
+    _c.rt, _c.rt_family = rt_obj, fam_obj_quick
+    _c.concretize = (lambda ev, _t=_t, _p=_p: ahc_concretize(ev, _t, _p))
 C_OBJPROP.rt, C_OBJPROP.rt_family, C_OBJPROP.concretize = rt_obj, fam_obj_quick, ahc_concretize
 
 
